@@ -26,7 +26,7 @@ def main(argv):
         if not line:
             continue
         try:
-            case = json.loads(line)["case"]
+            case = core.revive(json.loads(line)["case"])
             res = mod.check_case(case) or {}
             msg = {"status": "ok", "labels": list(res.get("labels", []))}
         except Violation as v:
